@@ -158,7 +158,83 @@ COMBINATORS = {
     "std::result::Result::<T, E>::unwrap_or_else": ("res", "unwrap_or_else"), "std::result::Result::<T, E>::or_else": ("res", "or_else"),
     "std::iter::Iterator::for_each": ("iter", "for_each"), "std::iter::Iterator::try_for_each": ("iter", "try_for_each"),
     "std::iter::Iterator::fold": ("iter", "fold"),
+    "std::iter::Iterator::find": ("iter", "find"), "std::iter::DoubleEndedIterator::rfind": ("iter", "rfind"),
+    "std::iter::Iterator::any": ("iter", "any"), "std::iter::Iterator::all": ("iter", "all"),
+    "std::option::Option::<T>::is_some_and": ("opt", "is_some_and"), "std::option::Option::<T>::is_none_or": ("opt", "is_none_or"),
+    "std::option::Option::<T>::filter": ("opt", "filter"),
+    "std::result::Result::<T, E>::is_ok_and": ("res", "is_ok_and"),
+    "core::bool::<impl bool>::then": ("bool", "then"), "core::bool::<impl bool>::then_some": ("bool", "then_some"),
+    "std::ops::RangeInclusive::<Idx>::contains": ("range", "inclusive"), "std::ops::Range::<Idx>::contains": ("range", "exclusive"),
+    "std::convert::From::from": ("from", "prim"),
 }
+PRIMS = ("bool", "u8", "u16", "u32", "u64", "u128", "usize", "i8", "i16", "i32", "i64", "i128", "isize")
+
+
+def konst(v, ty):
+    return {"k": {"ty": ty, "v": v, "dbg": "const %s" % v, "synthetic": True}}
+
+
+def unique_def(bld, l):
+    """The only definition of a local in the body under construction: ('rv', rvalue) | ('call', terminator) | None."""
+    defs = []
+    for blk in bld.m["blocks"]:
+        for st in blk["stmts"]:
+            if st["s"] == "assign" and st["lhs"]["l"] == l:
+                defs.append(("rv", st["rv"]) if not st["lhs"]["p"] else None)
+        t = blk["term"]
+        if t is not None and t["t"] == "call" and t["dest"]["l"] == l:
+            defs.append(("call", t) if not t["dest"]["p"] else None)
+    if len(defs) != 1:
+        return None
+    return defs[0]
+
+
+def range_bounds(F, bld, operand, inclusive, hops=8):
+    """(lo operand, hi operand) of the range an operand refers to: a `RangeInclusive::new(a, b)` call, a `Range { start, end }`
+    aggregate, or a promoted constant built in one of those two ways."""
+    want_ctor = "RangeInclusive::<Idx>::new" if inclusive else None
+    for _ in range(hops):
+        if "k" in operand:
+            k = operand["k"]
+            if "promoted" not in k:
+                return None
+            raws = F.bodies.get(k.get("def")) or []
+            if len(raws) != 1 or k["promoted"] >= len(raws[0].get("promoted") or []):
+                return None
+            pm = raws[0]["promoted"][k["promoted"]]
+            for blk in pm["blocks"]:
+                t = blk["term"]
+                if want_ctor and t["t"] == "call" and (t["callee"].get("def") or "").endswith(want_ctor) and all("k" in a for a in t["args"]):
+                    return t["args"][0], t["args"][1]
+                for st in blk["stmts"]:
+                    rv = st.get("rv") or {}
+                    if not inclusive and rv.get("r") == "agg" and rv.get("def") == "std::ops::Range" and all("k" in a for a in rv["ops"]):
+                        return rv["ops"][0], rv["ops"][1]
+            return None
+        p = operand.get("m") or operand.get("c")
+        if p is None or [e for e in p["p"] if e != "deref"]:
+            return None
+        d = unique_def(bld, p["l"])
+        if d is None:
+            return None
+        kind, x = d
+        if kind == "call":
+            if want_ctor and (x["callee"].get("def") or "").endswith(want_ctor):
+                return x["args"][0], x["args"][1]
+            return None
+        if x["r"] == "use":
+            operand = x["o"]
+        elif x["r"] == "ref":
+            operand = {"c": x["p"]}
+        elif x["r"] == "agg" and x.get("def") == "std::ops::Range" and not inclusive:
+            return x["ops"][0], x["ops"][1]
+        else:
+            return None
+    return None
+
+
+def as_copy(o):
+    return {"c": o["m"]} if "m" in o else o
 
 
 def closure_of(F, bld, operand):
@@ -250,6 +326,41 @@ def expand_call(F, bld, bi, depth, stack):
     sp, dest, target, unwind = t["sp"], t["dest"], t["target"], t.get("unwind")
     args = t["args"]
     go = lambda b: {"t": "goto", "target": b, "sp": sp, "exp": False}
+    sw = lambda op, zero, other: {"t": "switch", "discr": op, "discr_ty": "bool", "targets": [[0, zero]], "otherwise": other, "sp": sp, "exp": False,
+                                  "expanded_call": t["callee"].get("def")}
+    if fam == "from":
+        # `u64::from(flag)`, `usize::from(byte)`: the lossless conversions between primitive integers are casts
+        ca = t["callee"].get("args") or []
+        if len(ca) != 2 or ca[0] not in PRIMS or ca[1] not in PRIMS or len(args) != 1:
+            return False
+        blk["stmts"] = list(blk["stmts"]) + [assign(dest, {"r": "cast", "kind": "IntToInt", "o": args[0], "ty": ca[0]}, sp)]
+        blk["term"] = dict(go(target), expanded_call=t["callee"].get("def"))
+        return True
+    if fam == "range":
+        b = range_bounds(F, bld, args[0], meth == "inclusive")
+        item = args[1].get("m") or args[1].get("c")
+        if b is None or item is None:
+            return False
+        lo, hi = as_copy(b[0]), as_copy(b[1])
+        x = cp(P(item["l"], *(item["p"] + ["deref"])))
+        ge = bld.local("bool")
+        no = bld.block([assign(dest, konst(0, "bool"), sp)], go(target))
+        yes = bld.block([assign(dest, {"r": "bin", "op": "Le" if meth == "inclusive" else "Lt", "a": x, "b": hi}, sp)], go(target))
+        blk["stmts"] = list(blk["stmts"]) + [assign(ge, {"r": "bin", "op": "Ge", "a": x, "b": lo}, sp)]
+        blk["term"] = sw(mv(P(ge)), no, yes)
+        return True
+    if fam == "bool":
+        if meth == "then":
+            r = bld.local("?", "then")
+            fin = bld.block([assign(dest, variant(OPT, "Some", 1, [mv(P(r))]), sp)], go(target))
+            yes = apply_fn(F, bld, args[1], [], P(r), fin, unwind, sp, depth, stack)
+            if yes is None:
+                return False
+        else:
+            yes = bld.block([assign(dest, variant(OPT, "Some", 1, [args[1]]), sp)], go(target))
+        no = bld.block([assign(dest, variant(OPT, "None", 0, []), sp)], go(target))
+        blk["term"] = sw(args[0], no, yes)
+        return True
     if fam in ("opt", "res"):
         recv = args[0].get("m") or args[0].get("c")
         if recv is None:
@@ -292,6 +403,17 @@ def expand_call(F, bld, bi, depth, stack):
             f = bld.block([assign(dest, variant(RES, "Ok", 0, [mv(P(payload))]), sp)], go(target))
             fin = bld.block([assign(dest, variant(RES, "Err", 1, [mv(P(r))]), sp)], go(target))
             g = apply_fn(F, bld, args[1], [], P(r), fin, unwind, sp, depth, stack)
+        elif meth in ("is_some_and", "is_ok_and", "is_none_or"):
+            f = apply_fn(F, bld, args[1], [P(payload)], dest, target, unwind, sp, depth, stack)
+            g = bld.block([assign(dest, konst(1 if meth == "is_none_or" else 0, "bool"), sp)], go(target))
+        elif meth == "filter":
+            keep = bld.local("bool")
+            pref = bld.local("&?")
+            yes = bld.block([assign(dest, variant(OPT, "Some", 1, [mv(P(payload))]), sp)], go(target))
+            g = bld.block([assign(dest, variant(OPT, "None", 0, []), sp)], go(target))
+            test = bld.block([], sw(mv(P(keep)), g, yes))
+            f0 = apply_fn(F, bld, args[1], [P(pref)], P(keep), test, unwind, sp, depth, stack)
+            f = bld.block([assign(pref, {"r": "ref", "mut": False, "p": P(payload)}, sp)], go(f0)) if f0 is not None else None
         elif meth == "or_else":
             f = bld.block([assign(dest, variant(adt, good, good_i, [mv(P(payload))]), sp)], go(target))
             g0 = apply_fn(F, bld, args[1], [P(other)] if fam == "res" else [], dest, target, unwind, sp, depth, stack)
@@ -313,6 +435,19 @@ def expand_call(F, bld, bi, depth, stack):
     d = bld.local("isize")
     nxt_callee = {"def": "std::iter::Iterator::next", "trait": "std::iter::Iterator", "args": [], "local": False, "krate": "core", "unsafe": False,
                   "self_ty": {"s": "?", "k": "synth"}, "synthetic": True}
+    if meth == "rfind":
+        nxt_callee = dict(nxt_callee, **{"def": "std::iter::DoubleEndedIterator::next_back", "trait": "std::iter::DoubleEndedIterator"})
+    # the receiver's type is known from the call: resolve `next` to the implementation of this crate where there is one
+    st_ = t["callee"].get("self_ty") or {}
+    if st_.get("s"):
+        nxt_callee["self_ty"] = st_
+        base = st_["s"].split("<")[0]
+        suffix = " as %s>::%s" % (nxt_callee["trait"], nxt_callee["def"].split("::")[-1])
+        for cand in F.bodies:
+            if cand.startswith("<" + base) and cand.endswith(suffix):
+                nxt_callee["res"] = {"def": cand, "is_item": True, "local": True}
+                nxt_callee["local"] = True
+                break
     head = bld.block([assign(itref, {"r": "ref", "mut": True, "p": P(it)}, sp)], None)
     test = bld.block([assign(d, {"r": "discr", "p": P(x)}, sp)], None)
     bld.m["blocks"][head]["term"] = {"t": "call", "callee": nxt_callee, "args": [mv(P(itref))], "arg_tys": ["&mut ?"], "dest": P(x), "dest_ty": "?",
@@ -329,6 +464,20 @@ def expand_call(F, bld, bi, depth, stack):
                         {"t": "switch", "discr": mv(P(dr)), "discr_ty": "isize", "targets": [[0, head]], "otherwise": stop, "sp": sp, "exp": False})
         body = apply_fn(F, bld, args[1], [P(item)], P(r), chk, unwind, sp, depth, stack)
         done = bld.block([assign(dest, variant(RES, "Ok", 0, [{"k": {"zst": True, "ty": "()"}}]), sp)], go(target))
+    elif meth in ("find", "rfind"):
+        keep = bld.local("bool")
+        pref = bld.local("&?")
+        found = bld.block([assign(dest, variant(OPT, "Some", 1, [mv(P(item))]), sp)], go(target))
+        tst = bld.block([], sw(mv(P(keep)), head, found))
+        b0 = apply_fn(F, bld, args[1], [P(pref)], P(keep), tst, unwind, sp, depth, stack)
+        body = bld.block([assign(pref, {"r": "ref", "mut": False, "p": P(item)}, sp)], go(b0)) if b0 is not None else None
+        done = bld.block([assign(dest, variant(OPT, "None", 0, []), sp)], go(target))
+    elif meth in ("any", "all"):
+        keep = bld.local("bool")
+        hit = bld.block([assign(dest, konst(1 if meth == "any" else 0, "bool"), sp)], go(target))
+        tst = bld.block([], sw(mv(P(keep)), head, hit) if meth == "any" else sw(mv(P(keep)), hit, head))
+        body = apply_fn(F, bld, args[1], [P(item)], P(keep), tst, unwind, sp, depth, stack)
+        done = bld.block([assign(dest, konst(0 if meth == "any" else 1, "bool"), sp)], go(target))
     elif meth == "fold":
         acc = bld.local("?", "acc")
         nacc = bld.local("?", "acc")
@@ -387,6 +536,9 @@ def prepare(F, raw, depth=0, stack=()):
         t = bld.m["blocks"][bi]["term"]
         if t["t"] == "call" and t["callee"].get("def") in COMBINATORS and not os.environ.get("VERIF_NO_EXPAND"):
             expand_call(F, bld, bi, depth, stack + (raw["def"],))
+    for blk in bld.m["blocks"]:
+        if blk["term"] is None:         # left behind by an expansion that was abandoned half-way: never entered
+            blk["term"] = {"t": "unreachable", "sp": raw["span"], "exp": False}
     bld.raw["inlined"] = sorted(bld.absorbed)
     cache[key] = (bld.raw, set(bld.absorbed))
     return cache[key]
